@@ -54,6 +54,17 @@ Sensitivity (quick tier, seed 1, one mutant at a time on a scratch copy; all cau
        -> caught after the If-Modified-Since generator was extended to all three HTTP-date formats and zone variants
           (C27.server_error: "If-Modified-Since: Sun, 13 Sep 2020 12:26:41" -> 500); it was MISSED before, when
           only IMF-fixdate + GMT and garbage were generated.  replays/C27/ims-*.json pin the three naive forms.
+  M10 should_return_304: `except Exception` around parsedate_to_datetime narrowed to `except ValueError` (a date-like value with a
+      ~20-digit field raises OverflowError -> 500)
+       -> caught at seeds 1, 2, 3 after hostile / malformed conditional values were added (C27.server_error:
+          "If-Modified-Since: Sun, 99999999999999999999 Sep 2020 12:26:40 GMT" -> 500); MISSED before (only well-formed dates and
+          one garbage string).  replays/C27/ims-overflow-*.json pin it.
+
+Hostile conditional values: If-Modified-Since built from four date templates with one field replaced by a hostile number (20 / 40 / 400
+digits, negative, 0, 99999, superscript digits, empty, 1e9, hex) or a hostile zone, plus a fixed pool (empty, 5000 x, 3000 "(", ISO
+date, epoch seconds, ...); If-None-Match from a pool of malformed entity-tag lists.  Oracle: never 5xx, one of the statement's response
+shapes, and the range semantics of the request hold; 304 vs plain response is EITHER for these values.  If-Range is not generated:
+StaticFileHandler does not implement it and the statement is silent about it.
 """
 import email.utils
 import re
@@ -196,6 +207,8 @@ IMS_FORMS = ["equal", "after", "before", "garbage", "far_future"]
 
 
 def inm_value(form, etag):
+    if isinstance(form, (tuple, list)):  # ("raw", text): hostile / malformed value sent as is
+        return form[1]
     return {
         "match": etag,
         "weak": "W/" + etag,
@@ -232,6 +245,8 @@ def http_date(instant, fmt, zone):
 
 
 def ims_value(form, mtime):
+    if isinstance(form, (tuple, list)) and form[0] == "raw":
+        return form[1]
     if isinstance(form, (tuple, list)):
         when, fmt, zone = form
         return http_date(mtime + IMS_WHEN[when], fmt, zone)
@@ -249,6 +264,8 @@ def ims_info(ims):
     (IMF-fixdate with GMT) is `decided`; obsolete formats / non-GMT zones may be honoured or ignored."""
     if ims is None:
         return None
+    if isinstance(ims, (tuple, list)) and ims[0] == "raw":
+        return "raw"
     if isinstance(ims, (tuple, list)):
         when, fmt, zone = ims
         return (IMS_WHEN[when] >= 0, fmt == "imf" and zone == "GMT")
@@ -260,6 +277,10 @@ def ims_info(ims):
 def conditional(inm, ims):
     """-> must304 | no304 | either"""
     info = ims_info(ims)
+    if isinstance(inm, (tuple, list)) or info == "raw":
+        # hostile / malformed conditional value: it must not break the request; whether a lenient parser still finds a
+        # date or an entity-tag in it is unspecified, so 304 and the plain response are both accepted
+        return "either"
     ims_match = isinstance(info, tuple) and info[0]
     if inm in ("match", "weak", "star", "list_match"):
         return "must304"
@@ -413,6 +434,41 @@ soup_s = st.text(alphabet="bytes=-0123456789_+, \t.x\xa0B", max_size=14).map(lam
 n_s = st.one_of(st.integers(0, 300), st.integers(0, 12), st.sampled_from([0, 1, 2, 3, 10, 65536, 65537, 70000]))
 
 
+# ---- hostile / malformed conditional header values (must never produce a 5xx)
+HOSTILE_NUM = ["99999999999999999999", "-1", "0", "00", "99999", "1" * 40, "\xb2\xb3", "-99999999999999999999", "1e9", "", "0x10",
+               "4294967296", "2147483648", "9" * 400]
+HOSTILE_ZONE = ["+99999999999999999999", "-99999999999999999999", "+2500", "-2400", "+0000000000000000000000100", "GMT+1", "+",
+                "-", "Z", "EST5EDT", "+99", "+1e3", "\xb2\xb3\xb9\xb9"]
+DATE_TEMPLATES = [
+    ("Sun, {0} Sep {1} {2}:{3}:{4} {5}", ["13", "2020", "12", "26", "40", "GMT"]),
+    ("Sunday, {0}-Sep-{1} {2}:{3}:{4} {5}", ["13", "20", "12", "26", "40", "GMT"]),
+    ("Sun Sep {0} {2}:{3}:{4} {1}{5}", ["13", "2020", "12", "26", "40", ""]),
+    ("{0} Sep {1} {2}:{3}:{4} {5}", ["13", "2020", "12", "26", "40", "+0000"]),
+]
+HOSTILE_DATES = ["", "0", "-1", "x" * 5000, "(" * 3000, "Sun, 13 Sep 2020 12:26:40 GMT GMT GMT", "13 Sep 2020", "2020-09-13T12:26:40Z",
+                 ",", ";;;", "\xff\xfe", "Sun, 31 Feb 2020 12:26:40 GMT", "Sun, 13 Sep 2020 25:61:61 GMT", "Sun, 13 Foo 2020 12:26:40 GMT",
+                 "1600000000", "Sun, 13 Sep 2020", "12:26:40", "Sun, 13 Sep 2020 12:26 GMT", "Sun, 13 Sep 2020 12.26.40 GMT",
+                 "(comment) Sun, 13 Sep 2020 12:26:40 GMT", "Sun, 13 Sep 2020 12:26:40 GMT (" + "x" * 300, "=?utf-8?q?x?=", "\"Sun\""]
+HOSTILE_INM = ["\"", "\"\"", "W/", "W/\"\"", "*,*", "\"a", "a\"", "\"" + "x" * 5000 + "\"", "\xe9", "\"\xe9\"", "*\"", ",,,", "W/*",
+               "\"a\" \"b\"", "w/\"a\"", "\"a\", ", "\\", "\"\\\"\"", "W/W/\"a\"", "* ", "\"*\"", "0", "-1", "x" * 3000]
+
+
+@st.composite
+def hostile_ims_s(draw):
+    if draw(st.sampled_from([True, True, True, False])):
+        tmpl, fields = draw(st.sampled_from(DATE_TEMPLATES))
+        fields = list(fields)
+        idx = draw(st.integers(0, 5))
+        fields[idx] = draw(st.sampled_from(HOSTILE_ZONE if idx == 5 else HOSTILE_NUM))
+        text = tmpl.format(*fields)
+    else:
+        text = draw(st.sampled_from(HOSTILE_DATES))
+    return ("raw", text.strip(" \t"))
+
+
+hostile_inm_s = st.sampled_from(HOSTILE_INM).map(lambda t: ("raw", t.strip(" \t")))
+
+
 @st.composite
 def case_s(draw):
     n = draw(n_s)
@@ -421,9 +477,9 @@ def case_s(draw):
     cond = draw(st.integers(0, 9))
     inm = ims = None
     if cond >= 6:
-        inm = draw(st.sampled_from(INM_FORMS))
+        inm = draw(st.one_of(st.sampled_from(INM_FORMS), st.sampled_from(INM_FORMS), st.sampled_from(INM_FORMS), hostile_inm_s))
     if cond in (4, 5, 8, 9):
-        ims = draw(st.one_of(st.sampled_from(IMS_FORMS),
+        ims = draw(st.one_of(hostile_ims_s(), hostile_ims_s(), st.sampled_from(IMS_FORMS),
                              st.tuples(st.sampled_from(sorted(IMS_WHEN)), st.sampled_from(IMS_FMTS), st.sampled_from(sorted(IMS_ZONES))),
                              st.tuples(st.sampled_from(["before", "equal", "after"]), st.sampled_from(IMS_FMTS),
                                        st.sampled_from(sorted(IMS_ZONES)))))
@@ -544,7 +600,13 @@ def run_case(ctx, case):
             allowed = allowed | {("200",)}
     labels |= rl
     cond = conditional(inm, ims)
-    if isinstance(ims, (tuple, list)):
+    if isinstance(ims, (tuple, list)) and ims[0] == "raw":
+        labels.add("ims_hostile")
+        if inm is None:
+            labels.add("ims_hostile_no_inm")
+    if isinstance(inm, (tuple, list)):
+        labels.add("inm_hostile")
+    if isinstance(ims, (tuple, list)) and ims[0] != "raw":
         labels.add("ims_fmt_" + ims[1])
         zone = "none" if ims[1] == "asctime" else (ims[2] or "none")
         labels.add("ims_zone_" + zone)
@@ -574,7 +636,7 @@ def run_case(ctx, case):
               "content_range": g.get("Content-Range"), "allowed": sorted(allowed)}
     got = outcome_of(ctx, g, data, detail, None)
     labels.add("s%s" % g.code)
-    if got == ("304",) and inm is not None:
+    if got == ("304",) and isinstance(inm, str):
         labels.add("etag_304")
     if got not in allowed:
         if cls == "invalid" and got[0] in ("206", "416"):
@@ -647,7 +709,8 @@ def run_grammar(ctx, s):
 PARTS = {"main": run_case, "grid": run_case, "grammar": run_grammar}
 REQUIRED = ["suffix", "end_beyond", "start_eq_size", "invalid_underscore", "invalid_sign", "multi_range", "etag_304", "head",
             "g_invalid_non_ascii", "multi_chunk_file", "cond_and_range_either", "inverted_either",
-            "ims_fmt_rfc850", "ims_fmt_asctime", "ims_naive_no_inm", "ims_zone_+0100"]
+            "ims_fmt_rfc850", "ims_fmt_asctime", "ims_naive_no_inm", "ims_zone_+0100",
+            "ims_hostile_no_inm", "inm_hostile"]
 
 
 def main(ctx):
